@@ -11,6 +11,7 @@
 namespace vsched {
 enum St { RUNNABLE, B_MUTEX, B_CV, B_CVT, B_JOIN, B_PRED, FINISHED };
 
+void set_mode_pct(bool on);                       // call before begin(): schedule bytes seed PCT priorities / change points instead
 void begin(const uint8_t *choices, size_t n);   // the calling thread becomes thread 0
 void end();
 bool active();
